@@ -1,18 +1,22 @@
 (* C14 — handover_once (repaired on_wake: c_fix_add = true).
    Every context handed over through muggle_socket_evloop_add_ctx is, at every moment of every
-   schedule, in exactly one of: still queued / registered by the wake callback / released by the
-   wake callback because registration failed / released by the exit callback.  Identities are
-   never duplicated.  Registered contexts are released exactly once by the clear callbacks, and
-   when run() has returned the only contexts still queued are those enqueued after the exit
-   callback had taken the handle's mutex.
+   schedule, in exactly one of: still queued / registered by the wake callback and still in the
+   loop's list / released by the wake callback because registration failed / released by the
+   back-end's close dispatch (it was flagged CLOSED and the back-end saw the flag) / released by
+   the exit callback.  Identities are never duplicated.  The contexts still in the list when the
+   loop stops are released exactly once by the clear pass WHATEVER THEIR FLAGS (a context that was
+   shut down - flagged CLOSED - after the back-end's last look at it is released by the clear
+   pass, not skipped), and when run() has returned the only contexts still queued are those
+   enqueued after the exit callback had taken the handle's mutex.
    On the code as first found (c_fix_add = false) a context whose registration fails is in none
    of these places: handover_once_refuted. *)
 From MV Require Import C14.Model C14.ProofsBase.
+From Coq Require Import Permutation.
 
 Notation cnt_of := (count_occ Nat.eq_dec).
 
 Definition pend (p : pc) : option nat :=
-  match p with AHLock _ id | SHEnq _ id => Some id | _ => None end.
+  match p with AHLock _ id | SHEnq _ id | Cb (QHL _ id) | Cb (QHE _ id) => Some id | _ => None end.
 
 (* the context being released by the wake / exit callback is the head of the queue *)
 Definition head_ok (q : list nat) (p : pc) : Prop :=
@@ -21,19 +25,32 @@ Definition head_ok (q : list nat) (p : pc) : Prop :=
   | _ => True
   end.
 
+(* the context the back-end's close dispatch is releasing *)
+Definition closing (p : pc) : option nat :=
+  match p with ARel PhClose id | SRel PhClose (Some id) => Some id | _ => None end.
+
 Record HInv (C : config) (s : sys) : Prop := {
   h_leak : g_leaked s = [];
   h_count : forall x, cnt_of (g_enq s) x =
-                      cnt_of (queue s) x + cnt_of (reg s) x + cnt_of (g_relfail s) x + cnt_of (g_relexit s) x;
+                      cnt_of (queue s) x + cnt_of (reg s) x + cnt_of (g_relfail s) x + cnt_of (g_relexit s) x +
+                      cnt_of (g_relclose s) x;
   h_head : head_ok (queue s) (thr s (c_loop C));
   h_once : forall x, cnt_of (g_enq s) x <= 1;
   h_fresh : forall x, next_id s <= x -> cnt_of (g_enq s) x = 0;
   h_pend : forall t id, pend (thr s t) = Some id -> id < next_id s /\ cnt_of (g_enq s) id = 0;
   h_pend_ne : forall t u id, t <> u -> pend (thr s t) = Some id -> pend (thr s u) <> Some id;
+  (* the back-end's structures only hold registered contexts, each once *)
+  h_slots : NoDup (slots s) /\ incl (slots s) (reg s);
+  h_erl : NoDup (erl s) /\ incl (erl s) (reg s);
+  h_todo : NoDup (todo s) /\ forall id, In (Some id) (todo s) -> In id (reg s);
+  h_closing : forall id, closing (thr s (c_loop C)) = Some id -> In id (reg s) /\ ~ In (Some id) (todo s);
 }.
 
 Lemma init_hinv C : HInv C init.
-Proof. constructor; simpl; intros; try reflexivity; try lia; try discriminate; exact I. Qed.
+Proof.
+  constructor; simpl; intros; try reflexivity; try lia; try discriminate; try exact I;
+    try (split; [constructor|intros x Hx; destruct Hx]).
+Qed.
 
 Lemma drain_spec C : c_fix_add C = true -> forall q rg lk n q' rg' lk' n' st,
   drain C q rg lk n = (q', rg', lk', n', st) ->
@@ -55,66 +72,650 @@ Ltac cnt_norm :=
   repeat rewrite count_occ_app in *; repeat rewrite cnt_single in *;
   repeat match goal with |- context [Nat.eq_dec ?a ?b] => destruct (Nat.eq_dec a b); subst end.
 
+Lemma cnt_drop id l x : cnt_of (drop id l) x = if Nat.eq_dec id x then 0 else cnt_of l x.
+Proof.
+  unfold drop. induction l as [|y l IH]; simpl; [destruct (Nat.eq_dec id x); reflexivity|].
+  destruct (Nat.eqb_spec y id) as [->|ne]; simpl.
+  - rewrite IH. destruct (Nat.eq_dec id x); reflexivity.
+  - destruct (Nat.eq_dec y x) as [->|ne2]; rewrite IH; destruct (Nat.eq_dec id x); try reflexivity; congruence.
+Qed.
+
 Lemma head_ok_app q r p : head_ok q p -> head_ok (q ++ r) p.
 Proof.
-  destruct p as [| | | | | | | | | | | | | | |ph [id|]|ph id| | | | | | |]; simpl; auto; destruct ph; auto;
-    intros [x ->]; eexists; reflexivity.
+  destruct p; simpl; auto; repeat match goal with ph : phase |- _ => destruct ph | o : option nat |- _ => destruct o end;
+    simpl; auto; intros [x ->]; eexists; reflexivity.
 Qed.
+
+(* a step that touches neither the queue nor the lists of the accounting, by a thread that is not
+   (and will not be) inside a hand-over, and that leaves the loop thread at a point with no claim
+   on the head of the queue (or where it was) *)
+Lemma hinv_frame C s s' t :
+  HInv C s ->
+  queue s' = queue s -> reg s' = reg s -> g_enq s' = g_enq s -> g_relfail s' = g_relfail s ->
+  g_relexit s' = g_relexit s -> g_relclose s' = g_relclose s -> g_leaked s' = g_leaked s -> next_id s' = next_id s ->
+  slots s' = slots s ->
+  (NoDup (erl s') /\ incl (erl s') (reg s)) ->
+  (NoDup (todo s') /\ forall id, In (Some id) (todo s') -> In id (reg s)) ->
+  (forall u, u <> t -> thr s' u = thr s u) ->
+  (pend (thr s' t) = pend (thr s t) \/ pend (thr s' t) = None) ->
+  (t = c_loop C -> head_ok (queue s) (thr s' t)) ->
+  (t <> c_loop C -> todo s' = todo s) ->
+  (t = c_loop C -> forall id, closing (thr s' t) = Some id -> In id (reg s) /\ ~ In (Some id) (todo s')) ->
+  HInv C s'.
+Proof.
+  intros [Hlk Hc Hh Ho Hf Hp Hn Hsl Her Htd Hcl] E1 E2 E3 E4 E5 E6 E7 E8 E9 Her' Htd' Hoth Hpd Hhd Htd2 Hcl'.
+  assert (Hpd' : forall id, pend (thr s' t) = Some id -> pend (thr s t) = Some id).
+  { intros id K. destruct Hpd as [Hpd|Hpd]; congruence. }
+  constructor.
+  - rewrite E7. exact Hlk.
+  - intros x. rewrite E1, E2, E3, E4, E5, E6. apply Hc.
+  - rewrite E1. destruct (Nat.eq_dec (c_loop C) t) as [e|ne]; [rewrite e; apply Hhd; auto|rewrite (Hoth _ ne); exact Hh].
+  - rewrite E3. exact Ho.
+  - rewrite E3, E8. exact Hf.
+  - rewrite E3, E8. intros u id Hu.
+    destruct (Nat.eq_dec u t) as [->|ne]; [apply (Hp t); auto|apply (Hp u); rewrite <- (Hoth u ne); exact Hu].
+  - intros u v id Huv Hu Hv.
+    assert (Hu' : pend (thr s u) = Some id) by (destruct (Nat.eq_dec u t) as [->|ne]; [auto|rewrite <- (Hoth u ne); exact Hu]).
+    assert (Hv' : pend (thr s v) = Some id) by (destruct (Nat.eq_dec v t) as [->|ne]; [auto|rewrite <- (Hoth v ne); exact Hv]).
+    exact (Hn u v id Huv Hu' Hv').
+  - rewrite E9, E2. exact Hsl.
+  - rewrite E2. exact Her'.
+  - rewrite E2. exact Htd'.
+  - rewrite E2. intros id Hid. destruct (Nat.eq_dec (c_loop C) t) as [e|ne].
+    + rewrite e in Hid. apply Hcl'; auto.
+    + rewrite (Hoth _ ne) in Hid. rewrite Htd2 by auto. apply Hcl. exact Hid.
+Qed.
+
+Ltac hframe_tail F :=
+  eapply hinv_frame;
+  [ eassumption
+  | rewrite (tf_queue _ _ _ F); nrmg; reflexivity | rewrite (tf_reg _ _ _ F); nrmg; reflexivity
+  | rewrite (tf_g_enq _ _ _ F); nrmg; reflexivity | rewrite (tf_g_relfail _ _ _ F); nrmg; reflexivity
+  | rewrite (tf_g_relexit _ _ _ F); nrmg; reflexivity | rewrite (tf_g_relclose _ _ _ F); nrmg; reflexivity
+  | rewrite (tf_g_leaked _ _ _ F); nrmg; reflexivity | rewrite (tf_next_id _ _ _ F); nrmg; reflexivity
+  | intros u Hu; rewrite (tf_thr _ _ _ F) by exact Hu; nrmg; try reflexivity; apply upd_other; exact Hu
+  | | ].
+
+Lemma tail_pc_pend p : tail_pc_cb p -> pend p = None /\ forall q, head_ok q p.
+Proof.
+  unfold tail_pc_cb, tail_pc. intros H.
+  repeat match goal with H : _ \/ _ |- _ => destruct H | H : exists _, _ |- _ => destruct H end; subst; simpl; auto.
+Qed.
+
+(* ---- lists ---- *)
+Lemma drop_In id l x : In x (drop id l) <-> In x l /\ x <> id.
+Proof.
+  unfold drop. rewrite filter_In. split; intros [H1 H2]; split; auto.
+  - intros ->. rewrite Nat.eqb_refl in H2. discriminate.
+  - apply Bool.negb_true_iff. apply Nat.eqb_neq. exact H2.
+Qed.
+Lemma drop_NoDup id l : NoDup l -> NoDup (drop id l).
+Proof. apply NoDup_filter. Qed.
+
+Lemma replace_NoDup id last r : NoDup r -> ~ In last r ->
+  NoDup (map (fun x => if Nat.eqb x id then last else x) r).
+Proof.
+  induction r as [|a r IH]; simpl; intros Hnd Hl; [constructor|].
+  inversion Hnd as [|? ? Ha Hr]; subst. constructor.
+  - rewrite in_map_iff. intros (z & Hz & Hin).
+    destruct (Nat.eqb_spec a id) as [Ea|Ea]; destruct (Nat.eqb_spec z id) as [Ez|Ez].
+    + subst. contradiction.
+    + subst. apply Hl. right. exact Hin.
+    + subst. apply Hl. left. reflexivity.
+    + subst. contradiction.
+  - apply IH; [exact Hr|]. intros K. apply Hl. right. exact K.
+Qed.
+
+Lemma swap_remove_spec id l : NoDup l ->
+  NoDup (swap_remove id l) /\ (forall x, In x (swap_remove id l) -> In x l /\ x <> id).
+Proof.
+  intros Hnd. unfold swap_remove. destruct (rev l) as [|last ri] eqn:E; [split; [constructor|intros x []]|].
+  assert (El : l = rev ri ++ [last]) by (rewrite <- (rev_involutive l), E; reflexivity).
+  rewrite El in Hnd. apply NoDup_remove in Hnd. rewrite app_nil_r in Hnd. destruct Hnd as [Hn1 Hn2].
+  destruct (Nat.eqb_spec last id) as [->|ne].
+  - split; [exact Hn1|]. intros x Hx. split; [rewrite El; apply in_or_app; left; exact Hx|]. intros ->. contradiction.
+  - split; [apply replace_NoDup; assumption|].
+    intros x Hx. rewrite in_map_iff in Hx. destruct Hx as (z & Hz & Hin).
+    destruct (Nat.eqb_spec z id) as [Ez|nez]; subst x.
+    + split; [rewrite El; apply in_or_app; right; left; reflexivity|exact ne].
+    + split; [rewrite El; apply in_or_app; left; exact Hin|exact nez].
+Qed.
+
+Lemma add_uniq_NoDup id l : NoDup l -> NoDup (add_uniq id l).
+Proof.
+  intros H. unfold add_uniq. destruct (memb id l) eqn:E; [exact H|].
+  apply (Permutation_NoDup (Permutation_cons_append l id)). constructor; [|exact H]. intros K.
+  unfold memb in E. assert (existsb (Nat.eqb id) l = true) by (apply existsb_exists; exists id; split; [exact K|apply Nat.eqb_refl]). congruence.
+Qed.
+Lemma add_uniq_In id l x : In x (add_uniq id l) -> In x l \/ x = id.
+Proof.
+  unfold add_uniq. destruct (memb id l); [auto|]. intros H. apply in_app_or in H. destruct H as [H|[H|[]]]; auto.
+Qed.
+
+Lemma NoDup_map_Some (l : list nat) : NoDup l -> NoDup (map Some l).
+Proof. intros H. apply FinFun.Injective_map_NoDup; [intros a b E; inversion E; reflexivity|exact H]. Qed.
+Lemma In_map_Some id (l : list nat) : In (Some id) (map Some l) -> In id l.
+Proof. rewrite in_map_iff. intros (x & E & H). inversion E; subst. exact H. Qed.
+Lemma None_not_map_Some (l : list nat) : ~ In None (map Some l).
+Proof. rewrite in_map_iff. intros (x & E & _). discriminate. Qed.
+
+Lemma NoDup_suffix {A} (pre l : list A) : NoDup (pre ++ l) -> NoDup l.
+Proof. induction pre; simpl; auto. intros H. inversion H; auto. Qed.
+
+Lemma ins_sig_NoDup ch (l : list nat) : NoDup l -> NoDup (ins_sig ch (map Some l)).
+Proof.
+  intros H. unfold ins_sig.
+  assert (P : Permutation (None :: map Some l) (firstn ch (map Some l) ++ None :: skipn ch (map Some l))).
+  { rewrite <- (firstn_skipn ch (map Some l)) at 1. apply Permutation_middle. }
+  apply (Permutation_NoDup P). constructor; [apply None_not_map_Some|apply NoDup_map_Some; exact H].
+Qed.
+Lemma ins_sig_In ch (l : list (option nat)) x : In x (ins_sig ch l) -> x = None \/ In x l.
+Proof.
+  unfold ins_sig. intros H. apply in_app_or in H. destruct H as [H|[H|H]]; auto.
+  - right. rewrite <- (firstn_skipn ch l). apply in_or_app. left. exact H.
+  - right. rewrite <- (firstn_skipn ch l). apply in_or_app. right. exact H.
+Qed.
+
+(* the remaining part of a pass is a suffix of what was to visit *)
+Lemma pass_suffix C hp pe rd rh sg n td ns dr n' td' r ns' dr' :
+  pass C hp pe rd rh sg n td ns dr = (n', td', r, ns', dr') -> exists pre, td = pre ++ td'.
+Proof.
+  revert n ns dr. induction td as [|[x|] rr IH]; intros n ns dr H; simpl in H.
+  - inversion H; subst. exists []. reflexivity.
+  - destruct (memb x hp || _); [inversion H; subst; exists [Some x]; reflexivity|].
+    destruct (poll_done C _); [inversion H; subst; exists (Some x :: rr); rewrite app_nil_r; reflexivity|].
+    destruct (IH _ _ _ H) as [pre ->]. exists (Some x :: pre). reflexivity.
+  - destruct sg; [inversion H; subst; exists [None]; reflexivity|].
+    destruct (IH _ _ _ H) as [pre ->]. exists (None :: pre). reflexivity.
+Qed.
+
+(* ---- what the tail segments do to the list of the pass ---- *)
+Definition todo_ok (s s' : sys) (t : nat) : Prop :=
+  NoDup (todo s) ->
+  NoDup (todo s') /\ incl (todo s') (todo s) /\
+  (forall id, closing (thr s' t) = Some id -> In (Some id) (todo s) /\ ~ In (Some id) (todo s')).
+
+Lemma exit_test_todo C s t ns s' l : exit_test C s t ns = Some (s', l) -> todo_ok s s' t.
+Proof.
+  unfold exit_test. intros H Hnd.
+  destruct (to_exit s =? ST_EXIT); [destruct (c_bare C); [|destruct (reg s) as [|id r]]|];
+    inversion H; subst; clear H; nrmg; rewrite upd_same; (split; [exact Hnd|split; [apply incl_refl|intros i0 K; discriminate K]]).
+Qed.
+Lemma fin_pass_todo C s t ns s' l : fin_pass C s t ns = Some (s', l) -> todo_ok s s' t.
+Proof.
+  unfold fin_pass. intros H.
+  destruct (c_tmo C && c_cb_timer C); [|eapply exit_test_todo; eauto].
+  match type of H with (if is_nil (cbs ?x) then _ else _) = _ => set (s1 := x) in * end.
+  destruct (is_nil (cbs s1)).
+  - apply exit_test_todo in H. exact H.
+  - inversion H; subst; clear H. intros Hnd. nrmg. rewrite upd_same.
+    split; [exact Hnd|split; [apply incl_refl|intros id K; discriminate K]].
+Qed.
+Lemma seg_pass_todo C s t ns s' l : seg_pass C s t ns = Some (s', l) -> todo_ok s s' t.
+Proof.
+  intros H Hnd. unfold seg_pass in H.
+  destruct (pass C (hup s) (peof s) (rdy s) (rdh s) (psig s) (pn s) (todo s) ns []) as [[[[n td] r] ns'] dr] eqn:E.
+  pose proof (pass_suffix _ _ _ _ _ _ _ _ _ _ _ _ _ _ _ E) as [pre Epre].
+  assert (Hnd' : NoDup td) by (rewrite Epre in Hnd; eapply NoDup_suffix; eauto).
+  assert (Hin : incl td (todo s)) by (rewrite Epre; apply incl_appr, incl_refl).
+  destruct r as [|id|].
+  - inversion H; subst; clear H. nrmg. rewrite upd_same. split; [exact Hnd'|split; [exact Hin|intros id K; discriminate K]].
+  - inversion H; subst; clear H. nrmg. rewrite upd_same. split; [exact Hnd'|split; [exact Hin|]].
+    intros id' K. simpl in K. inversion K; subst id'.
+    apply pass_close_suffix in E. destruct E as [pre2 E2]. split; [rewrite E2; apply in_or_app; right; left; reflexivity|].
+    rewrite E2 in Hnd. apply NoDup_suffix in Hnd. inversion Hnd; assumption.
+  - apply fin_pass_todo in H. nrmh H. specialize (H Hnd'). nrmh H. destruct H as (H1 & H2 & H3).
+    split; [exact H1|split; [eapply incl_tran; eauto|]]. intros id K. destruct (H3 id K) as [K1 K2]. split; [apply Hin; exact K1|exact K2].
+Qed.
+
+Definition todo_from (s1 s' : sys) (t : nat) : Prop :=
+  exists td0, (td0 = todo s1 \/ td0 = map Some (reg s1)) /\
+    (NoDup td0 -> NoDup (todo s') /\ incl (todo s') td0 /\
+     forall id, closing (thr s' t) = Some id -> In (Some id) td0 /\ ~ In (Some id) (todo s')).
+
+Lemma todo_ok_from s1 s' t : todo_ok s1 s' t -> todo_from s1 s' t.
+Proof. intros H. exists (todo s1). split; [left; reflexivity|exact H]. Qed.
+
+Lemma wake_end_todo C s t ns s' l : wake_end C s t ns = Some (s', l) -> todo_from s s' t.
+Proof.
+  unfold wake_end. intros H. apply seg_pass_todo in H. unfold todo_ok in H. nrmh H.
+  exists (match c_be C with BSelect => map Some (reg s) | _ => todo s end).
+  split; [destruct (c_be C); auto|exact H].
+Qed.
+Lemma cb_end_todo C s t ns s' l : cb_end C s t ns = Some (s', l) -> todo_from s s' t.
+Proof.
+  unfold cb_end. intros H. destruct (cbk s); [apply todo_ok_from; eapply exit_test_todo; eauto|eapply wake_end_todo; eauto].
+Qed.
+Lemma cb_next_todo C s t k ns s' l : cb_next C s t k ns = Some (s', l) -> todo_from s s' t.
+Proof.
+  unfold cb_next. intros H. destruct (S k <? length (cbs s)); [|eapply cb_end_todo; eauto].
+  inversion H; subst; clear H. apply todo_ok_from. intros Hnd. nrmg. rewrite upd_same.
+  split; [exact Hnd|split; [apply incl_refl|intros i0 K; discriminate K]].
+Qed.
+
+Lemma hinv_nodup_reg C s : HInv C s -> NoDup (reg s).
+Proof.
+  intros H. apply NoDup_count_occ with (decA := Nat.eq_dec). intros x.
+  pose proof (h_count _ _ H x). pose proof (h_once _ _ H x). lia.
+Qed.
+
+(* a tail segment of the loop thread, started from a state [s1] that is [s] up to the program
+   point of the loop thread and the fields of the pass *)
+Lemma hinv_after C s s1 s' :
+  HInv C s ->
+  queue s1 = queue s -> reg s1 = reg s -> g_enq s1 = g_enq s -> g_relfail s1 = g_relfail s ->
+  g_relexit s1 = g_relexit s -> g_relclose s1 = g_relclose s -> g_leaked s1 = g_leaked s -> next_id s1 = next_id s ->
+  slots s1 = slots s -> (NoDup (erl s1) /\ incl (erl s1) (reg s)) -> todo s1 = todo s ->
+  (forall u, u <> c_loop C -> thr s1 u = thr s u) -> pend (thr s (c_loop C)) = None ->
+  tframe s1 s' (c_loop C) -> todo_from s1 s' (c_loop C) -> tail_pc_cb (thr s' (c_loop C)) ->
+  HInv C s'.
+Proof.
+  intros H E1 E2 E3 E4 E5 E6 E7 E8 E9 Her E10 Hoth Hpn F (td0 & Htd0 & Htd) P.
+  destruct (tail_pc_pend _ P) as [Pp Ph].
+  assert (Hnd0 : NoDup td0 /\ forall id, In (Some id) td0 -> In id (reg s)).
+  { destruct Htd0 as [->| ->].
+    - rewrite E10. exact (h_todo _ _ H).
+    - rewrite E2. split; [apply NoDup_map_Some; eapply hinv_nodup_reg; eauto|intros i0; apply In_map_Some]. }
+  destruct Hnd0 as [Hnd0 Hin0]. destruct (Htd Hnd0) as (T1 & T2 & T3).
+  eapply (hinv_frame C s s' (c_loop C) H).
+  - rewrite (tf_queue _ _ _ F). exact E1.
+  - rewrite (tf_reg _ _ _ F). exact E2.
+  - rewrite (tf_g_enq _ _ _ F). exact E3.
+  - rewrite (tf_g_relfail _ _ _ F). exact E4.
+  - rewrite (tf_g_relexit _ _ _ F). exact E5.
+  - rewrite (tf_g_relclose _ _ _ F). exact E6.
+  - rewrite (tf_g_leaked _ _ _ F). exact E7.
+  - rewrite (tf_next_id _ _ _ F). exact E8.
+  - rewrite (tf_slots _ _ _ F). exact E9.
+  - rewrite (tf_erl _ _ _ F). exact Her.
+  - split; [exact T1|]. intros id Hid. apply Hin0. apply T2. exact Hid.
+  - intros u Hu. rewrite (tf_thr _ _ _ F) by exact Hu. apply Hoth. exact Hu.
+  - right. exact Pp.
+  - intros _. apply Ph.
+  - intros K. exfalso. apply K. reflexivity.
+  - intros _ id Hid. destruct (T3 id Hid) as [K1 K2]. split; [apply Hin0; exact K1|exact K2].
+Qed.
+
+(* HInv only looks at these fields *)
+Lemma hinv_ext C a b :
+  queue b = queue a -> reg b = reg a -> g_enq b = g_enq a -> g_relfail b = g_relfail a -> g_relexit b = g_relexit a ->
+  g_relclose b = g_relclose a -> g_leaked b = g_leaked a -> next_id b = next_id a -> slots b = slots a -> erl b = erl a ->
+  todo b = todo a -> (forall u, thr b u = thr a u) -> HInv C a -> HInv C b.
+Proof.
+  intros E1 E2 E3 E4 E5 E6 E7 E8 E9 E10 E11 Et [].
+  constructor; rewrite ?E1, ?E2, ?E3, ?E4, ?E5, ?E6, ?E7, ?E8, ?E9, ?E10, ?E11, ?Et; auto.
+  all: intros; rewrite ?Et in *; eauto.
+Qed.
+
+(* ---- the individual steps that change the accounting ---- *)
+(* muggle_socket_evloop_add_ctx: the harness allocates the context *)
+Lemma hinv_oph C s s1 t p :
+  HInv C s -> pend (thr s t) = None -> pend p = Some (next_id s) -> (forall q, head_ok q p) -> closing p = None ->
+  queue s1 = queue s -> reg s1 = reg s -> g_enq s1 = g_enq s -> g_relfail s1 = g_relfail s -> g_relexit s1 = g_relexit s ->
+  g_relclose s1 = g_relclose s -> g_leaked s1 = g_leaked s -> next_id s1 = S (next_id s) -> slots s1 = slots s ->
+  erl s1 = erl s -> todo s1 = todo s -> (forall u, thr s1 u = upd (thr s) t p u) ->
+  HInv C s1.
+Proof.
+  intros [Hlk Hc Hh Ho Hf Hp Hn Hsl Her Htd Hcl] Hpt Hpp Hhp Hcp E1 E2 E3 E4 E5 E6 E7 E8 E9 E10 E11 Et.
+  constructor; rewrite ?E1, ?E2, ?E3, ?E4, ?E5, ?E6, ?E7, ?E8, ?E9, ?E10, ?E11, ?Et; auto.
+  - unfold upd. destruct (Nat.eqb_spec (c_loop C) t); [apply Hhp|exact Hh].
+  - intros x Hx. apply Hf. lia.
+  - intros u id Hu. rewrite Et in Hu. unfold upd in Hu. destruct (Nat.eqb_spec u t) as [->|ne].
+    + rewrite Hpp in Hu. inversion Hu; subst. split; [lia|apply Hf; lia].
+    + destruct (Hp u id Hu). split; [lia|assumption].
+  - intros u v id Huv Hu Hv. rewrite Et in Hu, Hv. unfold upd in Hu, Hv.
+    destruct (Nat.eqb_spec u t) as [->|n1]; destruct (Nat.eqb_spec v t) as [->|n2]; try contradiction.
+    + rewrite Hpp in Hu. inversion Hu; subst. destruct (Hp v _ Hv). lia.
+    + rewrite Hpp in Hv. inversion Hv; subst. destruct (Hp u _ Hu). lia.
+    + exact (Hn u v id Huv Hu Hv).
+  - intros id Hid. unfold upd in Hid. destruct (Nat.eqb_spec (c_loop C) t); [rewrite Hcp in Hid; discriminate|apply Hcl; exact Hid].
+Qed.
+
+(* ... and enqueues it *)
+Lemma hinv_enq C s s1 t p id :
+  HInv C s -> pend (thr s t) = Some id -> pend p = None -> (forall q, head_ok q p) -> closing p = None ->
+  queue s1 = queue s ++ [id] -> reg s1 = reg s -> g_enq s1 = g_enq s ++ [id] -> g_relfail s1 = g_relfail s ->
+  g_relexit s1 = g_relexit s -> g_relclose s1 = g_relclose s -> g_leaked s1 = g_leaked s -> next_id s1 = next_id s ->
+  slots s1 = slots s -> erl s1 = erl s -> todo s1 = todo s -> (forall u, thr s1 u = upd (thr s) t p u) ->
+  HInv C s1.
+Proof.
+  intros [Hlk Hc Hh Ho Hf Hp Hn Hsl Her Htd Hcl] Hpt Hpp Hhp Hcp E1 E2 E3 E4 E5 E6 E7 E8 E9 E10 E11 Et.
+  destruct (Hp t id Hpt) as [Hid1 Hid2].
+  constructor; rewrite ?E1, ?E2, ?E3, ?E4, ?E5, ?E6, ?E7, ?E8, ?E9, ?E10, ?E11, ?Et; auto.
+  - intros x. specialize (Hc x). cnt_norm; lia.
+  - unfold upd. destruct (Nat.eqb_spec (c_loop C) t); [apply Hhp|apply head_ok_app; exact Hh].
+  - intros x. specialize (Ho x). cnt_norm; lia.
+  - intros x Hx. specialize (Hf x Hx). cnt_norm; lia.
+  - intros u id' Hu. rewrite Et in Hu. unfold upd in Hu. destruct (Nat.eqb_spec u t) as [->|ne]; [rewrite Hpp in Hu; discriminate|].
+    destruct (Hp u id' Hu) as [K1 K2]. split; [exact K1|]. cnt_norm; [|lia].
+    exfalso. apply (Hn t u id' (fun E => ne (eq_sym E)) Hpt). exact Hu.
+  - intros u v id' Huv Hu Hv. rewrite Et in Hu, Hv. unfold upd in Hu, Hv.
+    destruct (Nat.eqb_spec u t) as [->|n1]; [rewrite Hpp in Hu; discriminate|].
+    destruct (Nat.eqb_spec v t) as [->|n2]; [rewrite Hpp in Hv; discriminate|].
+    exact (Hn u v id' Huv Hu Hv).
+  - intros id' Hid'. unfold upd in Hid'. destruct (Nat.eqb_spec (c_loop C) t); [rewrite Hcp in Hid'; discriminate|apply Hcl; exact Hid'].
+Qed.
+
+(* the release of the head of the queue by the wake callback (registration failed) / by the exit callback *)
+Lemma hinv_relhead C s s1 n (fail : bool) p :
+  HInv C s -> (exists r, queue s = n :: r) -> pend (thr s (c_loop C)) = None ->
+  pend p = None -> head_ok (tl (queue s)) p -> closing p = None ->
+  queue s1 = tl (queue s) -> reg s1 = reg s -> g_enq s1 = g_enq s ->
+  g_relfail s1 = (if fail then g_relfail s ++ [n] else g_relfail s) ->
+  g_relexit s1 = (if fail then g_relexit s else g_relexit s ++ [n]) ->
+  g_relclose s1 = g_relclose s -> g_leaked s1 = g_leaked s -> next_id s1 = next_id s ->
+  slots s1 = slots s -> erl s1 = erl s -> todo s1 = todo s -> (forall u, thr s1 u = upd (thr s) (c_loop C) p u) ->
+  HInv C s1.
+Proof.
+  intros [Hlk Hc Hh Ho Hf Hp Hn Hsl Her Htd Hcl] [r Hq] Hpl Hpp Hhp Hcp E1 E2 E3 E4 E5 E6 E7 E8 E9 E10 E11 Et.
+  constructor; rewrite ?E1, ?E2, ?E3, ?E4, ?E5, ?E6, ?E7, ?E8, ?E9, ?E10, ?E11, ?Et; auto.
+  - intros x. specialize (Hc x). rewrite Hq in *. simpl in *. destruct (Nat.eq_dec n x); destruct fail; cnt_norm; try lia; congruence.
+  - rewrite upd_same. exact Hhp.
+  - intros u id Hu. rewrite Et in Hu. unfold upd in Hu. destruct (Nat.eqb_spec u (c_loop C)) as [->|ne]; [rewrite Hpp in Hu; discriminate|eauto].
+  - intros u v id Huv Hu Hv. rewrite Et in Hu, Hv. unfold upd in Hu, Hv.
+    destruct (Nat.eqb_spec u (c_loop C)) as [->|n1]; [rewrite Hpp in Hu; discriminate|].
+    destruct (Nat.eqb_spec v (c_loop C)) as [->|n2]; [rewrite Hpp in Hv; discriminate|].
+    exact (Hn u v id Huv Hu Hv).
+  - rewrite upd_same. intros id Hid. rewrite Hcp in Hid. discriminate.
+Qed.
+
+Lemma cnt_pos_In l x : 0 < cnt_of l x <-> In x l.
+Proof. split; [intros H; apply (count_occ_In Nat.eq_dec); lia|intros H; apply (count_occ_In Nat.eq_dec) in H; lia]. Qed.
+
+(* on_wake's loop over the queue *)
+Lemma hinv_drain C s s1 n0 q rg lk notes st p :
+  c_fix_add C = true ->
+  HInv C s -> pend (thr s (c_loop C)) = None ->
+  drain C (queue s) (reg s) (g_leaked s) n0 = (q, rg, lk, notes, st) ->
+  p = match st with Some id => ARel PhDrain id | None => AWUnlock end ->
+  queue s1 = q -> reg s1 = rg -> g_enq s1 = g_enq s -> g_relfail s1 = g_relfail s -> g_relexit s1 = g_relexit s ->
+  g_relclose s1 = g_relclose s -> g_leaked s1 = lk -> next_id s1 = next_id s ->
+  slots s1 = slots s ++ skipn (length (reg s)) rg -> erl s1 = erl s -> todo s1 = todo s ->
+  (forall u, thr s1 u = upd (thr s) (c_loop C) p u) ->
+  HInv C s1.
+Proof.
+  intros Hfix H Hpl Hd Hp0 E1 E2 E3 E4 E5 E6 E7 E8 E9 E10 E11 Et.
+  pose proof H as [Hlk Hc Hh Ho Hf Hp Hn Hsl Her Htd Hcl].
+  apply (drain_spec C Hfix) in Hd. destruct Hd as (moved & Eq & Erg & Elk & Est). subst rg lk.
+  assert (Esk : skipn (length (reg s)) (reg s ++ moved) = moved).
+  { rewrite skipn_app, skipn_all, Nat.sub_diag. reflexivity. }
+  rewrite Esk in E9.
+  assert (Hpp : pend p = None) by (subst p; destruct st; reflexivity).
+  assert (Hcp : closing p = None) by (subst p; destruct st; reflexivity).
+  constructor; rewrite ?E1, ?E2, ?E3, ?E4, ?E5, ?E6, ?E7, ?E8, ?E9, ?E10, ?E11, ?Et; auto.
+  - intros x. specialize (Hc x). rewrite Eq in Hc. cnt_norm. lia.
+  - rewrite upd_same. subst p. destruct st as [id|]; simpl; [exact Est|exact I].
+  - intros u id Hu. rewrite Et in Hu. unfold upd in Hu. destruct (Nat.eqb_spec u (c_loop C)) as [->|ne]; [rewrite Hpp in Hu; discriminate|eauto].
+  - intros u v id Huv Hu Hv. rewrite Et in Hu, Hv. unfold upd in Hu, Hv.
+    destruct (Nat.eqb_spec u (c_loop C)) as [->|n1]; [rewrite Hpp in Hu; discriminate|].
+    destruct (Nat.eqb_spec v (c_loop C)) as [->|n2]; [rewrite Hpp in Hv; discriminate|].
+    exact (Hn u v id Huv Hu Hv).
+  - destruct Hsl as [S1 S2]. split.
+    + apply NoDup_count_occ with (decA := Nat.eq_dec). intros x. rewrite count_occ_app.
+      pose proof (proj1 (NoDup_count_occ Nat.eq_dec _) S1 x) as K1.
+      specialize (Hc x). specialize (Ho x). rewrite Eq in Hc. rewrite count_occ_app in Hc.
+      destruct (Nat.eq_dec (cnt_of (slots s) x) 0) as [Z|NZ]; [lia|].
+      assert (In x (reg s)) by (apply S2; apply cnt_pos_In; lia). apply cnt_pos_In in H0. lia.
+    + intros x Hx. apply in_app_or in Hx. apply in_or_app. destruct Hx as [Hx|Hx]; auto.
+  - destruct Her as [R1 R2]. split; [exact R1|]. intros x Hx. apply in_or_app. left. auto.
+  - destruct Htd as [T1 T2]. split; [exact T1|]. intros x Hx. apply in_or_app. left. auto.
+  - rewrite upd_same. intros id Hid. rewrite Hcp in Hid. discriminate.
+Qed.
+
+(* the back-end's close dispatch has released [id]: it leaves ctx_list and the back-end's arrays *)
+Lemma hinv_close C s s1 id td' :
+  HInv C s -> thr s (c_loop C) = SRel PhClose (Some id) -> NoDup td' -> incl td' (todo s) ->
+  queue s1 = queue s -> reg s1 = drop id (reg s) -> g_enq s1 = g_enq s -> g_relfail s1 = g_relfail s ->
+  g_relexit s1 = g_relexit s -> g_relclose s1 = g_relclose s ++ [id] -> g_leaked s1 = g_leaked s -> next_id s1 = next_id s ->
+  slots s1 = swap_remove id (slots s) -> erl s1 = drop id (erl s) -> todo s1 = td' ->
+  (forall u, thr s1 u = upd (thr s) (c_loop C) SPollRet u) ->
+  HInv C s1.
+Proof.
+  intros H Hpc Hnd Hinc E1 E2 E3 E4 E5 E6 E7 E8 E9 E10 E11 Et.
+  pose proof H as [Hlk Hc Hh Ho Hf Hp Hn Hsl Her Htd Hcl].
+  destruct (Hcl id) as [Hin Hnin]; [rewrite Hpc; reflexivity|].
+  pose proof (hinv_nodup_reg C s H) as Hndr.
+  assert (Hc1 : cnt_of (reg s) id = 1).
+  { pose proof (proj1 (NoDup_count_occ Nat.eq_dec _) Hndr id). apply cnt_pos_In in Hin. lia. }
+  constructor; rewrite ?E1, ?E2, ?E3, ?E4, ?E5, ?E6, ?E7, ?E8, ?E9, ?E10, ?E11, ?Et; auto.
+  - intros x. specialize (Hc x). rewrite cnt_drop. rewrite !count_occ_app. simpl.
+    destruct (Nat.eq_dec id x) as [e|ne]; [subst x; rewrite Hc1 in Hc; lia|lia].
+  - rewrite upd_same. exact I.
+  - intros u i0 Hu. rewrite Et in Hu. unfold upd in Hu. destruct (Nat.eqb_spec u (c_loop C)) as [->|ne]; [discriminate Hu|eauto].
+  - intros u v i0 Huv Hu Hv. rewrite Et in Hu, Hv. unfold upd in Hu, Hv.
+    destruct (Nat.eqb_spec u (c_loop C)) as [->|n1]; [discriminate Hu|].
+    destruct (Nat.eqb_spec v (c_loop C)) as [->|n2]; [discriminate Hv|].
+    exact (Hn u v i0 Huv Hu Hv).
+  - destruct Hsl as [S1 S2]. destruct (swap_remove_spec id (slots s) S1) as [W1 W2].
+    split; [exact W1|]. intros x Hx. destruct (W2 x Hx). apply drop_In. auto.
+  - destruct Her as [R1 R2]. split; [apply drop_NoDup; exact R1|].
+    intros x Hx. apply drop_In in Hx. destruct Hx. apply drop_In. auto.
+  - destruct Htd as [T1 T2]. split; [exact Hnd|]. intros x Hx. apply drop_In. split; [apply T2; apply Hinc; exact Hx|].
+    intros ->. apply Hnin. apply Hinc. exact Hx.
+  - rewrite upd_same. intros i0 K. discriminate K.
+Qed.
+
+(* a poll call that reports something: the plan of the pass *)
+Lemma hinv_poll C s s1 sg ch :
+  HInv C s -> pend (thr s (c_loop C)) = None ->
+  queue s1 = queue s -> reg s1 = reg s -> g_enq s1 = g_enq s -> g_relfail s1 = g_relfail s ->
+  g_relexit s1 = g_relexit s -> g_relclose s1 = g_relclose s -> g_leaked s1 = g_leaked s -> next_id s1 = next_id s ->
+  slots s1 = slots s -> erl s1 = [] -> todo s1 = pass_plan C s sg (crdy C s) ch ->
+  (forall u, thr s1 u = upd (thr s) (c_loop C) SPollRet u) ->
+  HInv C s1.
+Proof.
+  intros H Hpl E1 E2 E3 E4 E5 E6 E7 E8 E9 E10 E11 Et.
+  pose proof H as [Hlk Hc Hh Ho Hf Hp Hn Hsl Her Htd Hcl].
+  pose proof (hinv_nodup_reg C s H) as Hndr.
+  constructor; rewrite ?E1, ?E2, ?E3, ?E4, ?E5, ?E6, ?E7, ?E8, ?E9, ?E10, ?E11, ?Et; auto.
+  - rewrite upd_same. exact I.
+  - intros u i0 Hu. rewrite Et in Hu. unfold upd in Hu. destruct (Nat.eqb_spec u (c_loop C)) as [->|ne]; [discriminate Hu|eauto].
+  - intros u v i0 Huv Hu Hv. rewrite Et in Hu, Hv. unfold upd in Hu, Hv.
+    destruct (Nat.eqb_spec u (c_loop C)) as [->|n1]; [discriminate Hu|].
+    destruct (Nat.eqb_spec v (c_loop C)) as [->|n2]; [discriminate Hv|].
+    exact (Hn u v i0 Huv Hu Hv).
+  - split; [constructor|intros x []].
+  - unfold pass_plan, crdy. destruct Hsl as [S1 S2]. destruct Her as [R1 R2]. destruct (c_be C).
+    + destruct sg.
+      * split; [constructor; [intros []|constructor]|]. intros x [K|[]]. discriminate K.
+      * split; [apply NoDup_map_Some; exact Hndr|intros x; apply In_map_Some].
+    + split.
+      * apply (Permutation_NoDup (Permutation_cons_append _ None)). constructor; [apply None_not_map_Some|].
+        apply NoDup_map_Some. apply NoDup_rev. exact S1.
+      * intros x Hx. apply in_app_or in Hx. destruct Hx as [Hx|[Hx|[]]]; [|discriminate Hx].
+        apply In_map_Some in Hx. apply S2. apply in_rev. exact Hx.
+    + assert (F1 : NoDup (filter (lvl_ready s) (erl s))) by (apply NoDup_filter; exact R1).
+      assert (F2 : forall x, In x (filter (lvl_ready s) (erl s)) -> In x (reg s)).
+      { intros x Hx. apply filter_In in Hx. apply R2. tauto. }
+      destruct sg.
+      * split; [apply ins_sig_NoDup; exact F1|]. intros x Hx. apply ins_sig_In in Hx. destruct Hx as [Hx|Hx]; [discriminate Hx|].
+        apply F2. apply In_map_Some. exact Hx.
+      * split; [apply NoDup_map_Some; exact F1|]. intros x Hx. apply F2. apply In_map_Some. exact Hx.
+  - rewrite upd_same. intros i0 K. discriminate K.
+Qed.
+
+Lemma find_In {A} (f : A -> bool) l x : find f l = Some x -> In x l.
+Proof. intros H. apply find_some in H. tauto. Qed.
+
+(* everything a tail segment says *)
+Ltac tail_info :=
+  match goal with
+  | H : exit_test _ _ _ _ = Some _ |- _ =>
+    pose proof (todo_ok_from _ _ _ (exit_test_todo _ _ _ _ _ _ H)) as TF;
+    apply exit_test_frame in H; destruct H as (F & _ & _ & _ & P)
+  | H : fin_pass _ _ _ _ = Some _ |- _ =>
+    pose proof (todo_ok_from _ _ _ (fin_pass_todo _ _ _ _ _ _ H)) as TF;
+    apply fin_pass_frame in H; destruct H as (F & _ & _ & _ & P)
+  | H : seg_pass _ _ _ _ = Some _ |- _ =>
+    pose proof (todo_ok_from _ _ _ (seg_pass_todo _ _ _ _ _ _ H)) as TF;
+    apply seg_pass_frame in H; destruct H as (F & _ & P)
+  | H : wake_end _ _ _ _ = Some _ |- _ =>
+    pose proof (wake_end_todo _ _ _ _ _ _ H) as TF;
+    apply wake_end_frame in H; destruct H as (F & _ & P)
+  | H : cb_end _ _ _ _ = Some _ |- _ =>
+    pose proof (cb_end_todo _ _ _ _ _ _ H) as TF;
+    apply cb_end_frame in H; destruct H as (F & P & _)
+  end;
+  match goal with P0 : tail_pc (thr ?s1 ?t0) |- _ =>
+    apply (or_introl (B := exists k, thr s1 t0 = Cb (QY (S k)))) in P0; fold (tail_pc_cb (thr s1 t0)) in P0 end.
+Ltac tail_info_next :=
+  match goal with
+  | H : cb_next _ _ _ _ _ = Some _ |- _ =>
+    pose proof (cb_next_todo _ _ _ _ _ _ _ H) as TF;
+    apply cb_next_frame in H; destruct H as (F & P & _)
+  end.
+
+(* equalities between fields of updated states: compute both sides (never unify the states) *)
+Ltac rfl := repeat match goal with x := _ : sys |- _ => unfold x end; nrmg; reflexivity.
 
 Lemma step_hinv C s t ch s' l : c_fix_add C = true ->
   BInv C s -> HInv C s -> step C s t ch = Some (s', l) -> HInv C s'.
 Proof.
-  intros Hfix B [Hlk Hc Hh Ho Hf Hp Hn] Hs. pose proof (b_loop _ _ B t) as Hl.
-  pose proof (Hp t) as Hpt. pose proof (Hn t) as Hnt.
+  intros Hfix B H Hs. pose proof (b_loop _ _ B t) as Hl.
   step_inv Hs.
-  all: simpl in Hl, Hpt, Hnt.
-  all: repeat match goal with
-       | E : drain _ _ _ _ _ = _ |- _ => apply (drain_spec C Hfix) in E; simpl in E;
-           destruct E as (moved & Eq & Erg & Elk & Est); subst
-       end.
   all: repeat match goal with ph : phase |- _ => destruct ph end.
-  (* the released context is the head of the queue *)
-  all: try (match goal with E : thr _ ?t0 = SRel _ (Some _) |- _ =>
-              let Ht0 := fresh "Ht0" in
-              assert (Ht0 : t0 = c_loop C) by (apply Hl; reflexivity); rewrite <- Ht0 in Hh; rewrite E in Hh; simpl in Hh;
-              destruct Hh as [r0 Hq]; rewrite Hq in *; simpl tl in * end).
-  all: constructor; unfold set_pc; simpl.
-  (* h_leak *)
-  all: try assumption.
-  (* h_count *)
-  all: try (intros x; specialize (Hc x);
-            repeat match goal with Eq : queue _ = _ |- _ => rewrite Eq end;
-            repeat match goal with Eq : _ = _ ++ _ |- _ => rewrite Eq in * end;
-            simpl in *; cnt_norm; simpl in *; cnt_norm; lia).
-  all: try (intros x; repeat match goal with Eq : queue _ = _ |- _ => rewrite Eq | Eq : reg _ = _ |- _ => rewrite Eq end; apply Hc).
-  (* h_head *)
-  all: try (unfold upd; destruct (Nat.eqb_spec (c_loop C) t) as [e|ne];
-            [ simpl; first [ exact I | solve [eauto]
-                           | match goal with E : thr _ _ = _ |- _ => rewrite e in Hh; rewrite E in Hh; exact Hh end ]
-            | first [ assumption | apply head_ok_app; assumption
-                    | exfalso; apply ne; symmetry; apply Hl; reflexivity ] ]; fail).
-  (* h_once / h_fresh when the enqueue list or the id counter changes *)
-  all: try (intros x; specialize (Ho x); specialize (Hf x); destruct (Hpt _ eq_refl) as [Hp1 Hp2];
-            cnt_norm; intros; lia).
-  all: try (intros x Hx; apply Hf; lia).
-  (* h_pend *)
-  all: try (intros u id' Hu; unfold upd in Hu; destruct (Nat.eqb_spec u t) as [e|ne];
-            [ subst u; simpl in Hu; first [ discriminate Hu
-                | injection Hu as <-; first [ apply Hpt; reflexivity | split; [lia | apply Hf; lia] ] ]
-            | destruct (Hp u id' Hu) as [Hp1 Hp2]; split; [lia|];
-              first [ exact Hp2
-                    | cnt_norm; [exfalso; eapply (Hnt u); eauto | lia ] ] ]; fail).
-  (* h_pend_ne *)
-  all: try (intros u v id' Huv Hu Hv; unfold upd in Hu, Hv;
-            destruct (Nat.eqb_spec u t) as [e1|n1]; destruct (Nat.eqb_spec v t) as [e2|n2];
-            try (subst; contradiction); simpl in Hu, Hv; try discriminate Hu; try discriminate Hv;
-            first [ exact (Hn u v id' Huv Hu Hv)
-                  | subst u; injection Hu as <-;
-                    first [ exact (Hnt v _ (fun E => n2 (eq_sym E)) eq_refl Hv)
-                          | destruct (Hp v _ Hv); lia ]
-                  | subst v; injection Hv as <-;
-                    first [ exact (Hnt u _ (fun E => n1 (eq_sym E)) eq_refl Hu)
-                          | destruct (Hp u _ Hu); lia ] ]; fail).
+  all: simpl in Hl.
+  (* tails: steps of the loop thread *)
+  all: try (first [tail_info | tail_info_next];
+            assert (Et : t = c_loop C) by (apply Hl; reflexivity); subst t;
+            match goal with F : tframe ?s1 _ _ |- _ =>
+              eapply (hinv_after C s s1 _ H);
+              [ rfl | rfl | rfl | rfl | rfl | rfl | rfl | rfl | rfl
+              | nrmg; first [ exact (h_erl _ _ H)
+                            | split; [apply add_uniq_NoDup; exact (proj1 (h_erl _ _ H))
+                                     |intros x Hx; apply add_uniq_In in Hx; destruct Hx as [Hx| ->];
+                                      [exact (proj2 (h_erl _ _ H) x Hx)|eapply find_In; eassumption]] ]
+              | reflexivity
+              | intros u Hu; nrmg; try reflexivity
+              | match goal with E : thr _ _ = _ |- _ => rewrite E; reflexivity end
+              | exact F | eassumption | eassumption ] end; fail).
+  (* explicit steps that leave the accounting alone *)
+  all: try (match goal with |- HInv _ (set_pc _ _ _) => idtac end;
+            eapply (hinv_frame C s _ t H);
+            [ rfl | rfl | rfl | rfl | rfl | rfl | rfl | rfl | rfl
+            | nrmg; first [ exact (h_erl _ _ H)
+                          | split; [constructor|intros x []]
+                          | split; [apply add_uniq_NoDup; exact (proj1 (h_erl _ _ H))
+                                   |intros x Hx; apply add_uniq_In in Hx; destruct Hx as [Hx| ->];
+                                    [exact (proj2 (h_erl _ _ H) x Hx)|eapply find_In; eassumption]] ]
+            | nrmg; exact (h_todo _ _ H)
+            | intros u Hu; nrmg; apply upd_other; exact Hu
+            | nrmg; rewrite upd_same; match goal with E : thr _ _ = _ |- _ => rewrite E end; simpl; auto
+            | intros Et; nrmg; rewrite upd_same; simpl;
+              first [ exact I
+                    | pose proof (h_head _ _ H) as Hh; rewrite <- Et in Hh;
+                      match goal with E : thr _ _ = _ |- _ => rewrite E in Hh end; exact Hh ]
+            | intros _; reflexivity
+            | intros Et i0; nrmg; rewrite upd_same; simpl; intros K;
+              first [ discriminate K
+                    | inversion K; subst; pose proof (h_closing _ _ H) as Hc; rewrite <- Et in Hc;
+                      match goal with E : thr _ _ = _ |- _ => rewrite E in Hc end; apply Hc; reflexivity ] ]; fail).
+  (* hand-over: allocation, enqueue *)
+  all: try (match goal with |- HInv _ (set_pc (set_next_id _ _) _ ?p0) =>
+            eapply (hinv_oph C s _ t p0 H) end;
+            [ match goal with E : thr _ _ = _ |- _ => rewrite E; reflexivity end
+            | reflexivity | intros q0; exact I | reflexivity
+            | rfl | rfl | rfl | rfl | rfl | rfl | rfl | rfl
+            | rfl | rfl | rfl | intros u; rfl ]; fail).
+  all: try (match goal with |- HInv _ (set_pc (enqueue _ ?i0) _ ?p0) =>
+            eapply (hinv_enq C s _ t p0 i0 H);
+            [ match goal with E : thr _ _ = _ |- _ => rewrite E; reflexivity end
+            | reflexivity | intros q0; exact I | reflexivity
+            | rfl | rfl | rfl | rfl | rfl | rfl | rfl | rfl
+            | rfl | rfl | rfl | intros u; rfl ] end; fail).
+  (* from here on: the loop thread *)
+  all: assert (Et : t = c_loop C) by (apply Hl; reflexivity); subst t.
+  all: pose proof (h_head _ _ H) as Hh; pose proof (h_closing _ _ H) as Hcl;
+       match goal with E : thr _ _ = _ |- _ => rewrite E in Hh, Hcl end; simpl in Hh, Hcl.
+  (* the release of a flagged context is about to complete *)
+  all: try (match goal with |- HInv _ (set_pc ?x _ (SRel PhClose (Some _))) => is_var x end;
+            eapply (hinv_frame C s _ (c_loop C) H);
+            [ rfl | rfl | rfl | rfl | rfl | rfl | rfl | rfl | rfl
+            | exact (h_erl _ _ H) | exact (h_todo _ _ H)
+            | intros u Hu; nrmg; apply upd_other; exact Hu
+            | nrmg; rewrite upd_same; match goal with E : thr _ _ = _ |- _ => rewrite E end; auto
+            | intros _; nrmg; rewrite upd_same; exact I
+            | intros K; exfalso; apply K; reflexivity
+            | intros _ i0; nrmg; rewrite upd_same; simpl; intros K; inversion K; subst; apply Hcl; reflexivity ]; fail).
+  (* the exit callback finds a context in the queue *)
+  all: try (match goal with |- HInv _ (set_pc ?x _ (ARel PhExit _)) => is_var x end;
+            eapply (hinv_frame C s _ (c_loop C) H);
+            [ rfl | rfl | rfl | rfl | rfl | rfl | rfl | rfl | rfl
+            | exact (h_erl _ _ H) | exact (h_todo _ _ H)
+            | intros u Hu; nrmg; apply upd_other; exact Hu
+            | nrmg; rewrite upd_same; match goal with E : thr _ _ = _ |- _ => rewrite E end; auto
+            | intros _; nrmg; rewrite upd_same; simpl; eauto
+            | intros K; exfalso; apply K; reflexivity
+            | intros _ i0; nrmg; rewrite upd_same; simpl; intros K; discriminate K ]; fail).
+  (* ... after the release of the previous one *)
+  all: try (match goal with |- HInv _ (set_pc (set_g_relexit _ (_ ++ [?n0])) _ ?p0) =>
+            eapply (hinv_relhead C s _ n0 false p0 H);
+            [ exact Hh | match goal with E : thr _ _ = _ |- _ => rewrite E; reflexivity end
+            | reflexivity | simpl; first [exact I | eauto] | reflexivity
+            | rfl | rfl | rfl | rfl | rfl | rfl | rfl | rfl
+            | rfl | rfl | rfl | intros u; rfl ] end; fail).
+  (* a poll call that reports something *)
+  all: try (match goal with |- HInv _ (set_pc (set_todo _ (pass_plan _ _ ?sg _ ?c0)) _ SPollRet) =>
+            eapply (hinv_poll C s _ sg c0 H);
+            [ match goal with E : thr _ _ = _ |- _ => rewrite E; reflexivity end
+            | rfl | rfl | rfl | rfl | rfl | rfl | rfl | rfl
+            | rfl | rfl | rfl | intros u; rfl ] end; fail).
+  (* on_wake's loop over the queue *)
+  all: try (match goal with Hd : drain _ (queue ?x) _ _ _ = (_, _, _, _, ?st) |- HInv _ (set_pc _ _ ?p0) =>
+            is_var x; eapply (hinv_drain C s _ _ _ _ _ _ st p0 Hfix H);
+            [ match goal with E : thr _ _ = _ |- _ => rewrite E; reflexivity end
+            | exact Hd | reflexivity
+            | rfl | rfl | rfl | rfl | rfl | rfl | rfl | rfl
+            | rfl | rfl | rfl | intros u; rfl ] end; fail).
+  (* ... after the release of a context that could not be registered *)
+  all: try (match goal with Hd : drain _ (queue (set_g_relfail (set_queue ?x _) (_ ++ [?n0]))) _ _ _ = (_, _, _, _, ?st)
+                            |- HInv _ (set_pc _ _ ?p0) =>
+            set (sv := set_pc (set_g_relfail (set_queue x (tl (queue x))) (g_relfail x ++ [n0])) (c_loop C) (SRel PhDrain None));
+            assert (Hsv : HInv C sv) by
+              (eapply (hinv_relhead C s sv n0 true (SRel PhDrain None) H);
+               [ exact Hh | match goal with E : thr _ _ = _ |- _ => rewrite E; reflexivity end
+               | reflexivity | exact I | reflexivity
+               | rfl | rfl | rfl | rfl | rfl | rfl | rfl | rfl
+               | rfl | rfl | rfl | intros u; rfl ]);
+            eapply (hinv_drain C sv _ _ _ _ _ _ st p0 Hfix Hsv);
+            [ unfold sv; nrmg; rewrite upd_same; reflexivity
+            | exact Hd | reflexivity
+            | rfl | rfl | rfl | rfl | rfl | rfl | rfl | rfl
+            | reflexivity | reflexivity | reflexivity
+            | intros u; unfold sv; nrmg; unfold upd; destruct (Nat.eqb u (c_loop C)); reflexivity ] end; fail).
+  (* the rest of the pass after a close dispatch *)
+  all: first [tail_info | tail_info_next].
+  all: match goal with F : tframe ?s1 _ _ |- _ =>
+         let td := constr:(todo s1) in
+         first
+         [ (* after the release of [n] *)
+           match s1 with context [close_ctx ?x ?n0] =>
+             set (sv := set_pc (set_todo (close_ctx x n0) td) (c_loop C) SPollRet);
+             assert (Hsv : HInv C sv) by
+               (eapply (hinv_close C s sv n0 td H);
+                [ assumption
+                | nrmg; first [exact (proj1 (h_todo _ _ H)) | constructor]
+                | nrmg; first [apply incl_refl | intros y []]
+                | rfl | rfl | rfl | rfl | rfl | rfl | rfl | rfl
+                | rfl | rfl | rfl | intros u; rfl ])
+           end
+         | (* a close dispatch without a context (not reachable) *)
+           set (sv := set_pc s1 (c_loop C) SPollRet);
+           assert (Hsv : HInv C sv) by
+             (eapply (hinv_frame C s sv (c_loop C) H);
+              [ rfl | rfl | rfl | rfl | rfl | rfl | rfl | rfl | rfl
+              | exact (h_erl _ _ H) | split; [constructor|intros y []]
+              | intros u Hu; unfold sv; nrmg; apply upd_other; exact Hu
+              | right; unfold sv; nrmg; rewrite upd_same; reflexivity
+              | intros _; unfold sv; nrmg; rewrite upd_same; exact I
+              | intros K; exfalso; apply K; reflexivity
+              | intros _ i0; unfold sv; nrmg; rewrite upd_same; intros K; discriminate K ]) ];
+         eapply (hinv_after C sv s1 _ Hsv);
+         [ rfl | rfl | rfl | rfl | rfl | rfl | rfl | rfl | rfl
+         | exact (h_erl _ _ Hsv) | rfl
+         | intros u Hu; unfold sv; nrmg; symmetry; apply upd_other; exact Hu
+         | unfold sv; nrmg; rewrite upd_same; reflexivity
+         | exact F | eassumption | eassumption ] end.
 Qed.
 
 Theorem hinv_all C sched : c_fix_add C = true -> HInv C (exec sys (step C) init sched).
@@ -150,40 +751,145 @@ Definition KInv (C : config) (s : sys) : Prop :=
 Lemma init_kinv C : KInv C init.
 Proof. split; simpl; [auto|discriminate]. Qed.
 
+(* the other threads only ever append to the queue *)
+Lemma step_other_k C s t ch s' l : BInv C s -> t <> c_loop C -> step C s t ch = Some (s', l) ->
+  reg s' = reg s /\ g_relclear s' = g_relclear s /\ clr s' = clr s /\ exitdr s' = exitdr s /\ returned s' = returned s /\
+  ((queue s' = queue s /\ g_late s' = g_late s) \/
+   (exists id, mtx s = Some t /\ queue s' = queue s ++ [id] /\ g_late s' = if exitdr s then g_late s ++ [id] else g_late s)).
+Proof.
+  intros B Hne Hs. pose proof (b_loop _ _ B t) as Hl. pose proof (b_hold _ _ B t) as Hh.
+  step_inv Hs.
+  all: simpl in Hl, Hh; try (exfalso; apply Hne; apply Hl; reflexivity).
+  all: try (exfalso; apply Hne; apply Nat.eqb_eq; assumption).
+  all: nrmg; repeat split; auto.
+  right. eexists. split; [apply Hh; reflexivity|split; reflexivity].
+Qed.
+
+Lemma k_ok_tail C s s' p : tail_pc_cb p -> reg s' = reg s -> g_relclear s' = g_relclear s -> g_late s' = g_late s ->
+  (* the exit test: stays in the loop, or leaves it *)
+  (exitdr s' = exitdr s /\ (p = APoll \/ p = ARead \/ (exists id, p = ARel PhClose id) \/ (exists k, p = Cb (QY k))) \/
+   exitdr s' = exitdr s /\ (exists id, p = ARel PhClear id /\ reg s = id :: clr s') \/
+   exitdr s' = exitdr s /\ p = AXLock /\ reg s = [] \/
+   p = AFin /\ c_bare C = true /\ returned s' = true) ->
+  (g_relclear s = [] /\ exitdr s = false /\ g_late s = []) -> k_ok C s' p.
+Proof.
+  intros P E1 E2 E3 Hc (K1 & K2 & K3).
+  destruct Hc as [(Ex & Hp)|[(Ex & id & Hp & Hr)|[(Ex & Hp & Hr)|(Hp & Hb & _)]]].
+  - destruct Hp as [->|[->|[[id ->]|[k ->]]]]; simpl; rewrite E2, E3, Ex; auto.
+  - subst p. simpl. rewrite E1, E2, E3, Ex, K1. simpl. auto.
+  - subst p. simpl. rewrite E1, E2, E3, Ex, K1, Hr. auto.
+  - subst p. simpl. intros Hb'. congruence.
+Qed.
+
+(* what the tail segments do to the fields of the clear / exit accounting *)
+Definition k_tail (C : config) (s s' : sys) (t : nat) : Prop :=
+  g_late s' = g_late s /\ (returned s' = returned s \/ (returned s' = true /\ thr s' t = AFin)) /\
+  (exitdr s' = exitdr s /\ (thr s' t = APoll \/ thr s' t = ARead \/ (exists id, thr s' t = ARel PhClose id) \/ (exists k, thr s' t = Cb (QY k))) \/
+   exitdr s' = exitdr s /\ (exists id, thr s' t = ARel PhClear id /\ reg s = id :: clr s') \/
+   exitdr s' = exitdr s /\ thr s' t = AXLock /\ reg s = [] \/
+   thr s' t = AFin /\ c_bare C = true /\ returned s' = true).
+
+Lemma exit_test_k C s t ns s' l : exit_test C s t ns = Some (s', l) -> k_tail C s s' t.
+Proof.
+  unfold exit_test, k_tail. intros H.
+  destruct (to_exit s =? ST_EXIT); [destruct (c_bare C) eqn:Eb; [|destruct (reg s) as [|id r] eqn:Er]|];
+    inversion H; subst; clear H; nrmg; rewrite upd_same; (split; [reflexivity|]); (split; [auto|]).
+  - right. right. right. auto.
+  - right. right. left. auto.
+  - right. left. split; [reflexivity|]. exists id. auto.
+  - left. auto.
+Qed.
+Lemma fin_pass_k C s t ns s' l : fin_pass C s t ns = Some (s', l) -> k_tail C s s' t.
+Proof.
+  unfold fin_pass. intros H. destruct (c_tmo C && c_cb_timer C); [|eapply exit_test_k; eauto].
+  match type of H with (if is_nil (cbs ?x) then _ else _) = _ => set (s1 := x) in * end.
+  destruct (is_nil (cbs s1)).
+  - apply exit_test_k in H. exact H.
+  - inversion H; subst; clear H. unfold k_tail. nrmg. rewrite upd_same. split; [reflexivity|]. split; [auto|]. left. split; [reflexivity|]. eauto 10.
+Qed.
+Lemma seg_pass_k C s t ns s' l : seg_pass C s t ns = Some (s', l) -> k_tail C s s' t.
+Proof.
+  unfold seg_pass. intros H.
+  destruct (pass C (hup s) (peof s) (rdy s) (rdh s) (psig s) (pn s) (todo s) ns []) as [[[[n td] r] ns'] dr].
+  destruct r as [|id|].
+  - inversion H; subst; clear H. unfold k_tail. nrmg. rewrite upd_same. split; [reflexivity|]. split; [auto|]. left. auto.
+  - inversion H; subst; clear H. unfold k_tail. nrmg. rewrite upd_same. split; [reflexivity|]. split; [auto|]. left. split; [reflexivity|]. eauto 10.
+  - apply fin_pass_k in H. exact H.
+Qed.
+Lemma wake_end_k C s t ns s' l : wake_end C s t ns = Some (s', l) -> k_tail C s s' t.
+Proof. unfold wake_end. intros H. apply seg_pass_k in H. exact H. Qed.
+Lemma cb_end_k C s t ns s' l : cb_end C s t ns = Some (s', l) -> k_tail C s s' t.
+Proof. unfold cb_end. intros H. destruct (cbk s); [eapply exit_test_k|eapply wake_end_k]; eauto. Qed.
+Lemma cb_next_k C s t k ns s' l : cb_next C s t k ns = Some (s', l) -> k_tail C s s' t.
+Proof.
+  unfold cb_next. intros H. destruct (S k <? length (cbs s)); [|eapply cb_end_k; eauto].
+  inversion H; subst; clear H. unfold k_tail. nrmg. rewrite upd_same. split; [reflexivity|]. split; [auto|]. left. split; [reflexivity|]. eauto 10.
+Qed.
+
+Lemma kinv_of_tail C s1 s' :
+  tframe s1 s' (c_loop C) -> k_tail C s1 s' (c_loop C) -> tail_pc_cb (thr s' (c_loop C)) ->
+  (g_relclear s1 = [] /\ exitdr s1 = false /\ g_late s1 = []) -> returned s1 = false ->
+  KInv C s'.
+Proof.
+  intros F (T1 & T2 & T3) P K Hr. split.
+  - eapply (k_ok_tail C s1 s'); eauto.
+    + exact (tf_reg _ _ _ F).
+    + exact (tf_g_relclear _ _ _ F).
+  - intros Hx. destruct T2 as [T2|[_ T2]]; [congruence|left; exact T2].
+Qed.
+
 Lemma step_kinv C s t ch s' l :
   BInv C s -> KInv C s -> step C s t ch = Some (s', l) -> KInv C s'.
 Proof.
-  intros B [Hk Hr] Hs. pose proof (b_loop _ _ B t) as Hl. pose proof (b_hold _ _ B t) as Hht.
-  pose proof (b_hold _ _ B (c_loop C)) as HhL.
+  intros B [Hk Hr] Hs.
+  destruct (Nat.eq_dec t (c_loop C)) as [e|ne].
+  2: { (* another thread: it may enqueue, but not while the exit callback holds the mutex *)
+    destruct (step_other_k C s t ch s' l B ne Hs) as (E1 & E2 & E3 & E4 & E5 & Hq).
+    unfold KInv. rewrite (step_other_thr C s t ch s' l (c_loop C) Hs) by auto.
+    split; [|rewrite E5; exact Hr].
+    pose proof (b_hold _ _ B (c_loop C)) as HhL. clear Hs B.
+    destruct Hq as [[Q1 Q2]|(id & Hm & Q1 & Q2)].
+    - destruct (thr s (c_loop C)); simpl in *; rewrite ?E1, ?E2, ?E3, ?E4, ?Q1, ?Q2; try exact Hk;
+        repeat match goal with ph : phase |- _ => destruct ph | o : option nat |- _ => destruct o end;
+        simpl in *; rewrite ?E1, ?E2, ?E3, ?E4, ?Q1, ?Q2; exact Hk.
+    - destruct (thr s (c_loop C)) eqn:EL; simpl in *;
+        repeat match goal with ph : phase |- _ => destruct ph | o : option nat |- _ => destruct o end;
+        simpl in *; rewrite ?E1, ?E2, ?E3, ?E4, ?Q1, ?Q2;
+        try (exfalso; assert (mtx s = Some (c_loop C)) by (apply HhL; reflexivity); congruence);
+        try contradiction;
+        try (destruct Hk as (K1 & K2 & K3); rewrite K2; auto; fail).
+      all: intros Hb; specialize (Hk Hb); destruct Hk as (K1 & K2 & K3); rewrite K2; repeat split; auto; congruence. }
+  subst t.
   step_inv Hs.
-  all: simpl in Hl, Hht.
   all: repeat match goal with ph : phase |- _ => destruct ph end.
-  all: unfold KInv, set_pc; simpl; unfold upd.
-  all: destruct (Nat.eqb_spec (c_loop C) t) as [e|ne];
-    [ rewrite e in *; match goal with E : thr _ _ = _ |- _ => rewrite E in Hk, Hr; simpl in Hk end
-    | try (exfalso; apply ne; symmetry; apply Hl; reflexivity) ].
-  all: try exact (conj Hk Hr).
-  all: try (split; [ simpl in *; intuition (subst; auto; congruence)
-                   | first [ intros Hx; discriminate Hx
-                           | intros Hx; specialize (Hr Hx); destruct Hr; congruence
-                           | intros; auto ] ]; fail).
-  - exfalso. apply Nat.eqb_neq in Heqb1. congruence.
-  - destruct Hk as (K1 & K2 & K3). rewrite K2. split; [simpl; auto|].
-    intros Hx. specialize (Hr Hx). destruct Hr; congruence.
-  - (* an enqueue by another thread: not while the exit callback holds the mutex *)
-    assert (Hm : mtx s = Some t) by (apply Hht; reflexivity).
-    split; [|exact Hr].
-    destruct (thr s (c_loop C)) as [| | | | | | | | | | | | | | |ph [i|]|ph i| | | | | | |] eqn:EL;
-      simpl in *; try (destruct ph; simpl in * );
-      try (exfalso; assert (mtx s = Some (c_loop C)) by (apply HhL; reflexivity); congruence);
-      try (destruct Hk as (K1 & K2 & K3); rewrite K2; auto; fail);
-      try contradiction.
-    all: try (intros Hb; specialize (Hk Hb)).
-    all: destruct Hk as (K1 & K2 & K3); rewrite K2; repeat split; auto; congruence.
-  - destruct Hk as (K1 & K2 & K3). simpl in Heql0. rewrite Heql0 in K1. split; [|intros Hx; specialize (Hr Hx); destruct Hr; congruence].
-    simpl. repeat split; auto. rewrite <- app_assoc. exact K1.
-  - destruct Hk as (K1 & K2 & K3). split; [|intros Hx; specialize (Hr Hx); destruct Hr; congruence].
-    simpl. rewrite K1. repeat split; auto.
+  all: simpl in Hk.
+  (* tails *)
+  all: try (match goal with
+            | H : exit_test _ _ _ _ = Some _ |- _ => pose proof (exit_test_k _ _ _ _ _ _ H) as KT
+            | H : fin_pass _ _ _ _ = Some _ |- _ => pose proof (fin_pass_k _ _ _ _ _ _ H) as KT
+            | H : seg_pass _ _ _ _ = Some _ |- _ => pose proof (seg_pass_k _ _ _ _ _ _ H) as KT
+            | H : wake_end _ _ _ _ = Some _ |- _ => pose proof (wake_end_k _ _ _ _ _ _ H) as KT
+            | H : cb_end _ _ _ _ = Some _ |- _ => pose proof (cb_end_k _ _ _ _ _ _ H) as KT
+            | H : cb_next _ _ _ _ _ = Some _ |- _ => pose proof (cb_next_k _ _ _ _ _ _ _ H) as KT
+            end;
+            tail_frames;
+            try (match goal with P0 : tail_pc (thr ?s1 ?t0) |- _ =>
+                   apply (or_introl (B := exists k, thr s1 t0 = Cb (QY (S k)))) in P0; fold (tail_pc_cb (thr s1 t0)) in P0 end);
+            match goal with F : tframe ?s1 _ _ |- _ =>
+              eapply (kinv_of_tail C s1 _ F KT);
+              [ eassumption | nrmg; exact Hk
+              | nrmg; destruct (returned s) eqn:Er; [|reflexivity]; exfalso; destruct (Hr eq_refl); congruence ] end; fail).
+  (* explicit steps *)
+  all: unfold KInv; nrmg; rewrite ?upd_same; cbn [k_ok]; nrmg.
+  all: (split; [|intros Hx; first [discriminate Hx | specialize (Hr Hx); destruct Hr as [Hr|Hr]; first [discriminate Hr | auto] | auto]]).
+  all: try exact Hk.
+  all: try (destruct Hk as (K1 & K2 & K3); repeat split; auto; fail).
+  all: try (destruct Hk as (K1 & K2 & K3); rewrite K2; repeat split; auto; fail).
+  all: try contradiction.
+  all: try (exfalso; match goal with Hb : (?a =? ?a) = false |- _ => rewrite Nat.eqb_refl in Hb; discriminate Hb end).
+  all: try (destruct Hk as (K1 & K2 & K3); match goal with E : clr _ = _ |- _ => nrmh E; rewrite E in K1 end;
+            repeat split; auto; rewrite <- app_assoc; exact K1).
+  all: try (intros _; destruct Hk as (K1 & K2 & K3 & K4); rewrite K3, K4; auto).
 Qed.
 
 Theorem kinv_all C sched : KInv C (exec sys (step C) init sched).
@@ -196,20 +902,103 @@ Proof.
 Qed.
 
 
+(* ---- the flag CLOSED does not take a context off the loop's list ---- *)
+Definition hup_tail (s1 s' : sys) (t : nat) : Prop :=
+  hup s' = hup s1 \/ exists id, hup s' = add_uniq id (hup s1) /\ closing (thr s' t) = Some id.
+
+Lemma seg_pass_hup C s t ns s' l : seg_pass C s t ns = Some (s', l) -> hup_tail s s' t.
+Proof.
+  unfold seg_pass. intros H.
+  destruct (pass C (hup s) (peof s) (rdy s) (rdh s) (psig s) (pn s) (todo s) ns []) as [[[[n td] r] ns'] dr].
+  destruct r as [|id|].
+  - inversion H; subst; clear H. left. reflexivity.
+  - inversion H; subst; clear H. right. exists id. nrmg. rewrite upd_same. split; reflexivity.
+  - apply fin_pass_frame in H. destruct H as (_ & _ & Eh & _ & _). left. rewrite Eh. reflexivity.
+Qed.
+Lemma wake_end_hup C s t ns s' l : wake_end C s t ns = Some (s', l) -> hup_tail s s' t.
+Proof. unfold wake_end. intros H. apply seg_pass_hup in H. exact H. Qed.
+Lemma cb_end_hup C s t ns s' l : cb_end C s t ns = Some (s', l) -> hup_tail s s' t.
+Proof.
+  unfold cb_end. intros H. destruct (cbk s); [|eapply wake_end_hup; eauto].
+  apply exit_test_frame in H. destruct H as (_ & _ & Eh & _ & _). left. exact Eh.
+Qed.
+Lemma cb_next_hup C s t k ns s' l : cb_next C s t k ns = Some (s', l) -> hup_tail s s' t.
+Proof.
+  unfold cb_next. intros H. destruct (S k <? length (cbs s)); [|eapply cb_end_hup; eauto].
+  inversion H; subst; clear H. left. reflexivity.
+Qed.
+
+Definition FInv (s : sys) : Prop := incl (hup s) (reg s).
+
+Lemma drain_reg_incl C q : forall rg lk n q' rg' lk' n' st,
+  drain C q rg lk n = (q', rg', lk', n', st) -> incl rg rg'.
+Proof.
+  induction q as [|id q IH]; intros rg lk n q' rg' lk' n' st H; simpl in H.
+  - inversion H; subst. apply incl_refl.
+  - destruct (add_fails C rg).
+    + destruct (c_fix_add C); [inversion H; subst; apply incl_refl|eapply IH; eauto].
+    + apply IH in H. intros x Hx. apply H. apply in_or_app. left. exact Hx.
+Qed.
+
+Lemma step_finv C s t ch s' l : BInv C s -> HInv C s' -> FInv s -> step C s t ch = Some (s', l) -> FInv s'.
+Proof.
+  intros B H' Hf Hs. unfold FInv in *. pose proof (b_loop _ _ B t) as Hl.
+  step_inv Hs.
+  all: repeat match goal with ph : phase |- _ => destruct ph end.
+  all: simpl in Hl.
+  (* tails *)
+  all: try (match goal with
+            | H : exit_test _ _ _ _ = Some _ |- _ =>
+              apply exit_test_frame in H; destruct H as (F & _ & Eh & _ & _); assert (HT : hup_tail _ s' t) by (left; exact Eh)
+            | H : fin_pass _ _ _ _ = Some _ |- _ =>
+              apply fin_pass_frame in H; destruct H as (F & _ & Eh & _ & _); assert (HT : hup_tail _ s' t) by (left; exact Eh)
+            | H : seg_pass _ _ _ _ = Some _ |- _ => pose proof (seg_pass_hup _ _ _ _ _ _ H) as HT; apply seg_pass_frame in H; destruct H as (F & _ & _)
+            | H : wake_end _ _ _ _ = Some _ |- _ => pose proof (wake_end_hup _ _ _ _ _ _ H) as HT; apply wake_end_frame in H; destruct H as (F & _ & _)
+            | H : cb_end _ _ _ _ = Some _ |- _ => pose proof (cb_end_hup _ _ _ _ _ _ H) as HT; apply cb_end_frame in H; destruct H as (F & _ & _)
+            | H : cb_next _ _ _ _ _ = Some _ |- _ => pose proof (cb_next_hup _ _ _ _ _ _ _ H) as HT; apply cb_next_frame in H; destruct H as (F & _ & _)
+            end;
+            assert (Et : t = c_loop C) by (apply Hl; reflexivity); subst t;
+            intros x Hx; destruct HT as [HT|(id & HT & Hc)]; rewrite HT in Hx;
+            [ | apply add_uniq_In in Hx; destruct Hx as [Hx| ->]; [|exact (proj1 (h_closing _ _ H' _ Hc))] ];
+            rewrite (tf_reg _ _ _ F); nrmh Hx; nrmg;
+            first [ apply Hf; exact Hx
+                  | apply in_app_or in Hx; destruct Hx as [Hx|[<-|[]]]; [apply Hf; exact Hx|eapply find_In; eassumption]
+                  | apply drop_In in Hx; destruct Hx; apply drop_In; split; [apply Hf; assumption|assumption] ]; fail).
+  (* explicit steps *)
+  all: nrmg.
+  all: try exact Hf.
+  all: try (intros x Hx; apply in_app_or in Hx; destruct Hx as [Hx|[<-|[]]]; [apply Hf; exact Hx|eapply find_In; eassumption]).
+  all: match goal with Hd : drain _ _ _ _ _ = _ |- _ => nrmh Hd; apply drain_reg_incl in Hd;
+         intros x Hx; apply Hd; apply Hf; exact Hx end.
+Qed.
+
+Theorem finv_all C sched : c_fix_add C = true -> FInv (exec sys (step C) init sched).
+Proof.
+  intros Hfix.
+  assert (H : (BInv C (exec sys (step C) init sched) /\ HInv C (exec sys (step C) init sched)) /\ FInv (exec sys (step C) init sched)).
+  { apply (inv_exec sys (step C) (fun s => (BInv C s /\ HInv C s) /\ FInv s)).
+    - intros s t c s' l [[B W] F] Hs.
+      assert (W' : HInv C s') by (eapply step_hinv; eauto).
+      split; [split; [eapply step_binv; eauto|exact W']|eapply step_finv; eauto].
+    - split; [split; [apply init_binv | apply init_hinv]|intros x []]. }
+  exact (proj2 H).
+Qed.
+
 Definition places (s : sys) (x : nat) : nat :=
-  cnt_of (queue s) x + cnt_of (reg s) x + cnt_of (g_relfail s) x + cnt_of (g_relexit s) x.
+  cnt_of (queue s) x + cnt_of (reg s) x + cnt_of (g_relfail s) x + cnt_of (g_relexit s) x + cnt_of (g_relclose s) x.
 
 Theorem handover_once_all C sched : c_fix_add C = true ->
   let s := exec sys (step C) init sched in
   (* an identity is handed over at most once *)
   (forall x, cnt_of (g_enq s) x <= 1) /\
   (* every context handed over is in exactly one of: still queued, registered by the wake
-     callback, released by the wake callback (registration failed), released by the exit callback *)
+     callback and still in the loop's list, released by the wake callback (registration failed),
+     released by the exit callback, released by the back-end's close dispatch *)
   (forall x, In x (g_enq s) -> places s x = 1) /\
   (forall x, ~ In x (g_enq s) -> places s x = 0) /\
   g_leaked s = [] /\
-  (* once run() has returned, every registered context has been released by a clear callback,
-     each exactly once and in order, and what is still queued was enqueued after the exit
+  (* once run() has returned, every context still in the loop's list has been released by a clear
+     callback, each exactly once and in order, and what is still queued was enqueued after the exit
      callback had taken the handle's mutex (a bare loop has no handle and no hand-over) *)
   (returned s = true -> c_bare C = false -> g_relclear s = reg s /\ queue s = g_late s).
 Proof.
@@ -225,16 +1014,38 @@ Proof.
 Qed.
 
 (* hence, after run() has returned, every context handed over has been released exactly once -
-   by the wake callback, a clear callback or the exit callback - or is a late one still queued *)
+   by the wake callback, the close dispatch, a clear callback or the exit callback - or is a late
+   one still queued *)
 Corollary handover_released_once C sched : c_fix_add C = true ->
   let s := exec sys (step C) init sched in
   returned s = true -> c_bare C = false ->
   forall x, In x (g_enq s) ->
-  cnt_of (g_relfail s ++ g_relclear s ++ g_relexit s) x + cnt_of (g_late s) x = 1.
+  cnt_of (g_relfail s ++ g_relclose s ++ g_relclear s ++ g_relexit s) x + cnt_of (g_late s) x = 1.
 Proof.
   intros Hfix s Hret Hb x Hx. destruct (handover_once_all C sched Hfix) as (_ & H1 & _ & _ & H2). fold s in H1, H2.
   destruct (H2 Hret Hb) as [E1 E2]. specialize (H1 x Hx). unfold places in H1.
   rewrite !count_occ_app. rewrite E1, <- E2. lia.
+Qed.
+
+(* the clear pass releases every context that is still in the loop's list when the loop stops,
+   WHATEVER ITS FLAGS: a context that has been flagged CLOSED (shut down from a callback or from
+   another thread) and that the back-end has not dispatched before the exit test - shutdown and
+   exit in the same iteration - is still in the list ([hup] is a part of [reg]) and is released by
+   the clear pass, exactly once *)
+Theorem flagged_contexts_released_by_clear C sched : c_fix_add C = true ->
+  let s := exec sys (step C) init sched in
+  (* flagged contexts are registered contexts: the flag does not take a context off the list *)
+  (forall x, In x (hup s) -> In x (reg s)) /\
+  (returned s = true -> c_bare C = false ->
+   forall x, In x (reg s) -> cnt_of (g_relclear s) x = 1 /\ cnt_of (g_relclose s) x = 0 /\
+                             cnt_of (g_relfail s) x = 0 /\ cnt_of (g_relexit s) x = 0 /\ cnt_of (queue s) x = 0).
+Proof.
+  intros Hfix s. pose proof (hinv_all C sched Hfix) as H. fold s in H.
+  split; [exact (finv_all C sched Hfix)|].
+  intros Hret Hb x Hx. destruct (handover_once_all C sched Hfix) as (_ & _ & _ & _ & H2). fold s in H2.
+  destruct (H2 Hret Hb) as [E1 E2]. rewrite E1.
+  pose proof (h_count _ _ H x) as Hc. pose proof (h_once _ _ H x) as Ho.
+  apply cnt_pos_In in Hx. lia.
 Qed.
 
 (* the code as first found: poll back-end with one context slot, two hand-overs.  The second
@@ -254,4 +1065,25 @@ Example handover_once_witness_repaired :
   let s := exec sys (step (cfg_add_failure true)) init sched_add_failure in
   returned s = true /\ g_enq s = [0; 1] /\ reg s = [0] /\ g_relfail s = [1] /\ places s 1 = 1 /\
   g_relclear s = [0] /\ queue s = [] /\ g_leaked s = [].
+Proof. vm_compute. repeat split; reflexivity. Qed.
+
+(* shutdown and exit in the same iteration (epoll back-end): T0 hands a context over and asks for
+   the exit; the loop's only wake-up handling registers the context, the user's wake callback shuts
+   it down (flag CLOSED: [hup] = [0]), the promotion turns WAKE into EXIT and the exit test
+   leaves before any epoll_wait could report the hang-up: the context is released by the clear
+   pass (g_relclear = [0]), not by a close dispatch, and exactly once *)
+Definition cfg_shut_exit (be : backend) : config :=
+  mk_cfg_cb be 2 1 8 (fun t => match t with 0 => [OpH; OpX] | _ => [] end) [[OpS]] [] false false.
+Definition sched_shut_exit : list (nat * nat) := repeat (0, 0) 20 ++ repeat (1, 0) 40.
+Example shutdown_then_exit_before_dispatch :
+  forall be, be = BEpoll \/ be = BPoll ->
+  let s := exec sys (step (cfg_shut_exit be)) init sched_shut_exit in
+  returned s = true /\ g_enq s = [0] /\ reg s = [0] /\ hup s = [0] /\
+  g_relclear s = [0] /\ g_relclose s = [] /\ queue s = [].
+Proof. intros be [-> | ->]; vm_compute; repeat split; reflexivity. Qed.
+(* the select back-end tests the flags of every context in the walk that follows the wake-up
+   handling: the same schedule releases the context by a close dispatch *)
+Example shutdown_then_exit_select :
+  let s := exec sys (step (cfg_shut_exit BSelect)) init sched_shut_exit in
+  returned s = true /\ g_enq s = [0] /\ reg s = [] /\ g_relclear s = [] /\ g_relclose s = [0] /\ queue s = [].
 Proof. vm_compute. repeat split; reflexivity. Qed.
